@@ -454,3 +454,22 @@ def replay(ctx, case):
     rej = tlc.validate_traces(ctx, "BitPrimsTrace", [rec])
     for rid, clause in rej.items():
         ctx.violation("C14|%s|%s|%s" % (name.split("_")[0], clause, case["ev"]), "%s on %s" % (clause, name), case)
+
+
+# ---- the Python support library's Serializer / Deserializer as an object with a history (specs/PySupport*.tla, vf/pysupport.py): call histories on one
+# object, forks, every fragmentation of the input, zero extension, judged by TLC step by step
+from ..pysupport import CLAUSES as PYSUP_CLAUSES, replay_pysupport, run_pysupport  # noqa: E402
+
+PYSUP_OWNER = {c: "C14" for c in PYSUP_CLAUSES}
+_run_own, _replay_own = run, replay
+
+
+def run(ctx):  # noqa: F811
+    _run_own(ctx)
+    run_pysupport(ctx, PYSUP_OWNER)
+
+
+def replay(ctx, case):  # noqa: F811
+    if case.get("mode") == "history":
+        return replay_pysupport(ctx, case, PYSUP_OWNER)
+    return _replay_own(ctx, case)
